@@ -58,18 +58,29 @@ Damage == /\ Scope = "damage" /\ phase = 1 /\ phase' = 2 /\ UNCHANGED sc
                \/ bs' = SubSeq(bs, 1, i - 1) \o SubSeq(bs, i + 1, Len(bs))
                \/ bs' = SubSeq(bs, 1, i) \o SubSeq(bs, i, Len(bs))
 \* programs whose operands (slot numbers, POPN counts, constant indices) cross the 1-byte varint class (240/241) and 255/256
-VarScale == { [shape |-> sh, n |-> k] : sh \in {"many-vars", "many-vars-read", "many-vars-in-block"}, k \in {239, 240, 241, 242, 245, 255, 256, 257, 300} }
+VarScale == { [shape |-> sh, n |-> k] : sh \in {"many-vars", "many-vars-read", "many-vars-in-block"}, k \in {239, 240, 241, 242, 243, 245, 255, 256, 257, 300} }
+              \cup { [shape |-> sh, n |-> k] : sh \in {"vars-distinct", "vars-distinct-end"}, k \in (1..40) \cup {239, 240, 241, 242, 243, 256, 257} }   \* every operand value incl. those equal to opcode numbers; -end: the scope ends right after a declaration
+              \cup { [shape |-> "same-print", n |-> k] : k \in 0..5 }          \* constants of different kinds with the same printed form
+\* short-circuit jumps across the one-byte boundary of the 16-bit operand, taken and not taken
+JumpScale == { [shape |-> sh, n |-> k] : sh \in {"long-and", "long-or", "long-and-nt", "long-or-nt"}, k \in {10, 200, 250, 254, 255, 256, 257, 258, 260, 300, 510, 512, 514, 1000, 4000} }
 PickScale == /\ phase = 0 /\ phase' = 1 /\ UNCHANGED bs
              /\ \/ Scope = "scale" /\ \E c \in ScaleCases : sc' = c
                 \/ Scope = "varscale" /\ \E c \in VarScale : sc' = c
+                \/ Scope = "jumps" /\ \E c \in JumpScale : sc' = c
 Next == Grow \/ PickLit \/ PickBase \/ Damage \/ PickScale
 Spec == Init /\ [][Next]_vars
 \* what the language says about the jump-distance shapes: the short-circuit jump spans 2 + 2m bytes for m = (n - 2) \div 2 added terms;
 \* beyond the 16-bit operand the program must be rejected, otherwise the skipping run prints the left operand
 JumpSpan(n) == 2 + 2 * ((n - 2) \div 2)
-ExpectOf(c) == IF c.shape \notin {"long-and", "long-or"} THEN ""
-               ELSE IF JumpSpan(c.n) > Limits.jump THEN "compile-error"
-               ELSE IF c.shape = "long-and" THEN "prints:0" ELSE "prints:1"
+\* many-vars-read / -in-block declare v_i = i mod 7 and print v_0 + v_(n-1); vars-distinct declares v_i = 100 + i and prints v_0 + v_(n-1);
+\* the -nt jump shapes do not take the jump and print the right operand: 1 + m
+Dec(n) == LET RECURSIVE D(_) D(k) == IF k < 10 THEN <<48 + k>> ELSE Append(D(k \div 10), 48 + (k % 10)) IN D(n)
+ExpectOf(c) == CASE c.shape \in {"long-and", "long-or"} ->
+                      (IF JumpSpan(c.n) > Limits.jump THEN <<99>> ELSE IF c.shape = "long-and" THEN <<48>> ELSE <<49>>)      \* <<99>> = "c": compile error
+                 [] c.shape \in {"long-and-nt", "long-or-nt"} -> (IF JumpSpan(c.n) > Limits.jump THEN <<99>> ELSE Dec(1 + ((c.n - 2) \div 2)))
+                 [] c.shape \in {"many-vars-read", "many-vars-in-block"} -> (IF c.n + 2 > Limits.stack THEN <<>> ELSE Dec((c.n - 1) % 7))   \* the two operands need two more slots
+                 [] c.shape = "vars-distinct" -> Dec(200 + (c.n - 1))
+                 [] OTHER -> <<>>
 Emit == (Scope = "bytes" \/ phase >= 1) =>
-        PrintT(<<"CASE", ToJson([fam |-> "total", src |-> bs, shape |-> sc.shape, n |-> sc.n, expect |-> ExpectOf(sc), nt |-> (Len(bs) >= 2 \/ Scope \in {"scale", "varscale"})])>>)
+        PrintT(<<"CASE", ToJson([fam |-> "total", src |-> bs, shape |-> sc.shape, n |-> sc.n, expect |-> ExpectOf(sc), nt |-> (Len(bs) >= 2 \/ Scope \in {"scale", "varscale", "jumps"})])>>)
 ====
